@@ -40,18 +40,17 @@ impl UnixStream {
             ),
             0,
         )?;
+        // Owned from here on, every early return closes the socket
+        let fd = OwnedFd(fd);
         let addr = SocketAddressUnix::try_from_unix(path)?;
-        if let Err(e) = sock_nonblock_op_poll_if_not_ready(
-            fd,
+        sock_nonblock_op_poll_if_not_ready(
+            fd.0,
             Errno::EAGAIN,
             PollEvents::POLLOUT,
             timeout,
             |sock| rusl::network::connect_unix(sock, &addr),
-        ) {
-            let _ = rusl::unistd::close(fd);
-            return Err(e);
-        }
-        Ok(Self(OwnedFd(fd)))
+        )?;
+        Ok(Self(fd))
     }
 
     /// Attempts to connect immediately without blocking, returns `Some` if successful, `None`
@@ -67,19 +66,19 @@ impl UnixStream {
             ),
             0,
         )?;
+        // Owned from here on, every early return closes the socket
+        let fd = OwnedFd(fd);
         let addr = SocketAddressUnix::try_from_unix(path)?;
-        match rusl::network::connect_unix(fd, &addr) {
+        match rusl::network::connect_unix(fd.0, &addr) {
             Ok(()) => {}
             Err(e) if e.code == Some(Errno::EAGAIN) => {
-                let _ = rusl::unistd::close(fd);
                 return Ok(None);
             }
             Err(e) => {
-                let _ = rusl::unistd::close(fd);
                 return Err(e.into());
             }
         }
-        Ok(Some(Self(OwnedFd(fd))))
+        Ok(Some(Self(fd)))
     }
 }
 
@@ -124,17 +123,12 @@ impl UnixListener {
             ),
             0,
         )?;
+        // Owned from here on, every early return closes the socket
+        let fd = OwnedFd(fd);
         let addr = SocketAddressUnix::try_from_unix(path)?;
-        if let Err(e) = rusl::network::bind_unix(fd, &addr) {
-            let _ = rusl::unistd::close(fd);
-            return Err(e.into());
-        }
-        if let Err(e) = rusl::network::listen(fd, NonNegativeI32::MAX) {
-            let _ = rusl::unistd::close(fd);
-            return Err(e.into());
-        }
-        rusl::network::listen(fd, NonNegativeI32::MAX)?;
-        Ok(Self(OwnedFd(fd)))
+        rusl::network::bind_unix(fd.0, &addr)?;
+        rusl::network::listen(fd.0, NonNegativeI32::MAX)?;
+        Ok(Self(fd))
     }
 
     /// Accepts a new connection, `UnixListener`, blocking until it arrives
@@ -383,12 +377,11 @@ impl TcpListener {
         let addr = match addr.ip {
             Ip::V4(bytes) => SocketAddressInet::new(bytes, addr.port),
         };
-        if let Err(e) = rusl::network::bind_inet(fd, &addr) {
-            let _ = rusl::unistd::close(fd);
-            return Err(e.into());
-        }
-        rusl::network::listen(fd, NonNegativeI32::MAX)?;
-        Ok(Self(OwnedFd(fd)))
+        // Owned from here on, every early return closes the socket
+        let fd = OwnedFd(fd);
+        rusl::network::bind_inet(fd.0, &addr)?;
+        rusl::network::listen(fd.0, NonNegativeI32::MAX)?;
+        Ok(Self(fd))
     }
     /// Get this socket's local bind address
     /// # Errors
